@@ -2,7 +2,7 @@
 # ./check --replay <file>: re-runs a replay.
 #  *.txt      : prints the failed obligation and the solver output recorded for it
 #  *_test.go  : runs the in-package test against /repo with `go test -overlay` (first line: // replay-pkg: <pkg dir>)
-F="$1"
+F="$(realpath "$1")"
 case "$F" in
   *_test.go)
     PKG=$(sed -n 's|^// replay-pkg: *||p' "$F" | head -1)
